@@ -139,10 +139,18 @@ def _exchange(rng, index, ex, alg, enc, form, res, tr, mode):
         # caller-supplied salt input
         h0 = cell["rcpts"][0][0]
         if cell["algs"][0] in rjwe.PBES2:
+            # ... and iteration count: whatever the sender was allowed to choose, the receiver goes through with
+            # (a million iterations cost half a second: rarely)
+            count = rng.pick([1, 3, 1000, 4096, 16385, 70000]) if not rng.chance(0.03) else 1000001
+            given = any("p2c" in (d or {}) for d in (cell["protected"], cell["unprotected"], h0))
             if form == "compact" or (len(cell["rcpts"]) == 1 and not (h0 and "alg" in h0)):
                 cell["protected"]["p2s"] = b64.enc(rng.bytes_(rng.pick([8, 16, 33])))
+                if rng.chance(0.5) and not given:
+                    cell["protected"]["p2c"] = count
             elif h0 and "alg" in h0:
                 h0["p2s"] = b64.enc(rng.bytes_(rng.pick([8, 16, 33])))
+                if rng.chance(0.5) and not given:
+                    h0["p2c"] = count
     repro = {"alg": alg, "enc": enc, "form": form, "protected": cell["protected"], "unprotected": cell["unprotected"],
              "aad": cell["aad"].hex() if cell["aad"] else None, "algs": cell["algs"],
              "rcpts": [[h, rk.to_jwk(k, True)] for h, k in cell["rcpts"]], "plaintext_len": len(pt),
